@@ -449,18 +449,36 @@ func (g *Gen) makeAsk() *Op {
 		tg.RealSent++
 		op.TaskGroup = tg.Name
 		op.Res = tg.Res.Clone()
-		switch r.Intn(8) {
-		case 0: // smaller
-			for k, v := range op.Res {
-				if v > 1 {
-					op.Res[k] = v - 1
+		keys := sortedKeys(op.Res)
+		switch r.Intn(12) {
+		case 0: // smaller in one type
+			k := keys[r.Intn(len(keys))]
+			if op.Res[k] > 1 {
+				op.Res[k]--
+			}
+		case 1: // larger in one type
+			op.Res[keys[r.Intn(len(keys))]]++
+		case 2: // mixed: larger in one type, smaller in another
+			if len(keys) >= 2 {
+				i := r.Intn(len(keys))
+				j := (i + 1 + r.Intn(len(keys)-1)) % len(keys)
+				op.Res[keys[i]]++
+				if op.Res[keys[j]] > 1 {
+					op.Res[keys[j]]--
+				}
+			} else {
+				op.Res[keys[0]]++
+			}
+		case 3: // a type the placeholder does not have
+			for _, t := range []string{"memory", "vcore", "gpu"} {
+				if _, ok := op.Res[t]; !ok {
+					op.Res[t] = int64(r.Range(1, 3))
 					break
 				}
 			}
-		case 1: // larger
-			for k := range op.Res {
-				op.Res[k]++
-				break
+		case 4: // a type less than the placeholder
+			if len(keys) >= 2 {
+				delete(op.Res, keys[r.Intn(len(keys))])
 			}
 		}
 		return op
